@@ -159,12 +159,14 @@ def build_tree(cls_name, f, lab="uniq"):
         label, did = (lambda i: f"n{i}"), None
     # node ids given by the application on every second node of the `eq` trees (node_id != id(node) there)
     nid = (lambda i: 900 + i if i % 2 == 0 else None) if lab == "eq" else None
+    # the `eq` trees are also created level by level: the order of creation (registry order) is not the document order
+    creation = "bfs" if lab == "eq" else "pre"
     if cls_name == "typed":
         t = TypedTree("t")
-        nodes = gen.build(t, f, label, kind=lambda i: "kab"[i % 3] + "x", data_id=did, node_id=nid)
+        nodes = gen.build(t, f, label, kind=lambda i: "kab"[i % 3] + "x", data_id=did, node_id=nid, creation=creation)
     else:
         t = Tree("t")
-        nodes = gen.build(t, f, label, data_id=did, node_id=nid)
+        nodes = gen.build(t, f, label, data_id=did, node_id=nid, creation=creation)
     return t, nodes
 
 
@@ -374,10 +376,15 @@ def _run_case(case, res):
                 the_cb = [cb, cb_other_names, cb_underscore, cb_varargs, functools.partial(lambda extra, nd, mm: cb(nd, mm), "x"),
                           _Obj().method, cb][shape_i]
                 res.count(f"callback_shape:{shape_i}")
+                # the memo object is the caller's: given explicitly (also an empty list / dict) it is the object the callbacks get
+                own_memo = [None, [], {}, [0], None][(shape_i + len(exp)) % 5]
+                mkw = {} if own_memo is None else {"memo": own_memo}
                 if start == -1:
-                    ret = t.visit(the_cb, method=im)
+                    ret = t.visit(the_cb, method=im, **mkw)
                 else:
-                    ret = sobj.visit(the_cb, add_self=add_self, method=im)
+                    ret = sobj.visit(the_cb, add_self=add_self, method=im, **mkw)
+                if own_memo is not None and memos and any(m is not own_memo for m in memos):
+                    fail(f"visit(memo=<{type(own_memo).__name__} of length {len(own_memo)}>) passed another object to the callbacks: {type(memos[0]).__name__}")
                 res.count("visit_traces")
                 res.observe("callback_traces", [method, trace, repr(ret)])
                 res.count(f"cell:{method}:{form}")
